@@ -622,7 +622,7 @@ Proof.
   split; [|split; [|split; [|split]]].
   - cbn. unfold W8, W16, W32, W48, W64, int48. repeat split; try lia; repeat constructor; try reflexivity; cbn; try lia.
   - cbn. unfold W16, W32. repeat split; try lia; repeat constructor; cbn; try lia; vm_compute; intro; discriminate.
-  - eexists. split; vm_compute; reflexivity.
+  - exists (write_bytes ex_top). split; vm_compute; reflexivity.
   - intro E. apply (f_equal f_code) in E. vm_compute in E. discriminate.
   - vm_compute. reflexivity.
 Qed.
